@@ -1083,6 +1083,121 @@ pub async fn check_answers(
     Ok(Ok(()))
 }
 
+/// What a server holds, read from the node itself (used for sync sessions that overlap
+/// other activity on the server).
+#[derive(Clone, Default)]
+pub struct ServerView {
+    pub canon: super::exec::CanonState,
+    pub live: BTreeMap<(usize, u64), Vec<Change>>,
+    pub buffered: BTreeMap<(usize, u64), Vec<Change>>,
+}
+
+pub async fn server_view(w: &World, s: usize) -> R<ServerView> {
+    let st = w.node(s).sync_state().await;
+    let canon = w.canon(&st);
+    let conn = w.read_conn(s).await?;
+    let mut view = ServerView { canon, ..Default::default() };
+    for (table, dest) in [("crsql_changes", &mut view.live), ("__corro_buffered_changes", &mut view.buffered)] {
+        let mut stmt = conn.prepare(&format!(
+            r#"SELECT "table", pk, cid, val, col_version, db_version, seq, site_id, cl FROM {table} ORDER BY site_id, db_version, seq"#
+        ))?;
+        let rows = stmt.query_map([], klukai_types::change::row_to_change)?;
+        for c in rows {
+            let c = c?;
+            let Some(&a) = w.actor_idx.get(&ActorId::from_bytes(c.site_id)) else { continue };
+            dest.entry((a, c.db_version.0)).or_default().push(c);
+        }
+    }
+    Ok(view)
+}
+
+impl ServerView {
+    fn may_declare_empty(&self, a: usize, v: u64) -> bool {
+        let needed = self.canon.need.get(&a).is_some_and(|ns| ns.iter().any(|(x, y)| *x <= v && v <= *y));
+        let partial = self.canon.partial.get(&a).is_some_and(|p| p.contains_key(&v));
+        let beyond = v > self.canon.heads.get(&a).copied().unwrap_or(0);
+        !needed && !partial && !beyond && !self.live.contains_key(&(a, v))
+    }
+
+    fn may_send(&self, a: usize, v: u64, x: u64, y: u64, last_seq: u64, changes: &[Change]) -> bool {
+        let within = |src: &Vec<Change>| -> Vec<Change> { src.iter().filter(|c| c.seq.0 >= x && c.seq.0 <= y).cloned().collect() };
+        if let Some(live) = self.live.get(&(a, v)) {
+            if live.last().map(|c| c.seq.0) == Some(last_seq) && within(live) == changes {
+                return true;
+            }
+        }
+        if let Some(buf) = self.buffered.get(&(a, v)) {
+            if within(buf) == changes {
+                return true;
+            }
+        }
+        false
+    }
+}
+
+/// C05 for a session that overlapped other activity on the server: every answer must be
+/// right for the server's state before or after that activity (each need is answered from
+/// one snapshot; which one is the server's choice).
+pub async fn check_answers_mid(
+    w: &mut World,
+    s: usize,
+    pre: &ServerView,
+    needs: &[(usize, SyncNeedV1)],
+    answers: &[ChangeV1],
+) -> VRes<()> {
+    w.stats.oracle_checks += 1;
+    let post = server_view(w, s).await?;
+    let requested = |a: usize, v: u64| {
+        needs.iter().any(|(na, nd)| {
+            *na == a
+                && match nd {
+                    SyncNeedV1::Full { versions } => versions.start().0 <= v && v <= versions.end().0,
+                    SyncNeedV1::Partial { version, .. } => version.0 == v,
+                    SyncNeedV1::Empty { .. } => false,
+                }
+        })
+    };
+    for cv in answers {
+        let Some(&a) = w.actor_idx.get(&cv.actor_id) else {
+            return vio("C05", "answer-for-unknown-actor", json!({"server": s}));
+        };
+        match &cv.changeset {
+            Changeset::Empty { versions, .. } => {
+                for v in versions.start().0..=versions.end().0 {
+                    if !pre.may_declare_empty(a, v) && !post.may_declare_empty(a, v) {
+                        return vio(
+                            "C05",
+                            "declared-empty-but-not-empty-before-or-after-concurrent-activity",
+                            json!({"server": s, "actor": a, "version": v,
+                                   "live_before": pre.live.contains_key(&(a, v)), "live_after": post.live.contains_key(&(a, v))}),
+                        );
+                    }
+                    if !requested(a, v) {
+                        return vio("C05", "unrequested-answer", json!({"server": s, "actor": a, "version": v}));
+                    }
+                }
+                w.stats.probe("c05.mid.empty-checked");
+            }
+            Changeset::Full { version, changes, seqs, last_seq, .. } => {
+                let (x, y) = (seqs.start().0, seqs.end().0);
+                if !pre.may_send(a, version.0, x, y, last_seq.0, changes) && !post.may_send(a, version.0, x, y, last_seq.0, changes) {
+                    return vio(
+                        "C05",
+                        "answer-matches-neither-state-before-nor-after-concurrent-activity",
+                        json!({"server": s, "actor": a, "version": version.0, "range": [x, y], "changes": changes.len()}),
+                    );
+                }
+                if !requested(a, version.0) {
+                    return vio("C05", "unrequested-answer", json!({"server": s, "actor": a, "version": version.0}));
+                }
+                w.stats.probe("c05.mid.full-checked");
+            }
+            Changeset::EmptySet { .. } => {}
+        }
+    }
+    Ok(Ok(()))
+}
+
 fn same_changes(a: &[&Change], b: &[&Change]) -> bool {
     a.len() == b.len() && a.iter().zip(b.iter()).all(|(x, y)| **x == **y)
 }
